@@ -245,12 +245,14 @@ theorem posOnly (pos : Pos) (x : Tok) (rest : List Tok) (hpos : pos.WF) (hx : x.
 
 /-! ### rejections before the named-parameter loop -/
 
+omit hlp hsty htext in
 /-- No `(` after `format`: range error from the `format` token to the next one. -/
 theorem reject_no_lparen (x : Tok) (rest : List Tok) (hx : x.type ≠ .LPAREN) :
     (parseFormatStringOperator env fuel).run (st s (fm :: x :: rest)) =
       .error (newRangeParseError fm x "format operator must begin with an open parenthesis '('") := by
   simp [parseFormatStringOperator, hx]
 
+omit htext in
 /-- No string literal: error at the offending token. -/
 theorem reject_no_text (x : Tok) (rest : List Tok) (hx : x.type ≠ .STRING)
     (hx2 : sty = none → x.type ≠ .STRINGTYPE) :
